@@ -41,84 +41,97 @@ func C02() int {
 		f := fsets[fi]
 		gg := gen.New(c.Seed*7919 + int64(fi)*104729 + 17)
 		gg.LongMax = 300
-		var pairs []pair
-		var lines [][]byte
-		for i, it := range base {
-			for r := 0; r < k; r++ {
-				mode := modes[(i+r)%len(modes)]
-				t2 := gg.Reassign(it.Tree, gen.ReassignOpts{Mode: mode, Numbers: f.N, Bools: f.B, Remote: f.I, LongLen: 20000})
-				st := []jt.Style{jt.Plain, jt.GoLike, jt.Unicode}[(i+r)%3]
-				b := Item{Case: it.Case, Tree: t2, Raw: t2.Bytes(st)}
-				if len(b.Raw) > 60000 {
-					continue
-				}
-				pairs = append(pairs, pair{it, b, mode})
-				lines = append(lines, it.Raw, b.Raw)
-			}
+		// pairs are generated, run and judged chunk by chunk (about 400 lines per process), so that
+		// the thorough tier never holds more than one chunk of re-assigned trees per worker
+		per := 400 / (2 * k)
+		if per < 1 {
+			per = 1
 		}
-		// run in chunks
-		const chunk = 400
-		for lo := 0; lo < len(lines); lo += chunk {
-			hi := lo + chunk
-			if hi > len(lines) {
-				hi = len(lines)
+		for blo, lineNo := 0, 0; blo < len(base); blo += per {
+			bhi := blo + per
+			if bhi > len(base) {
+				bhi = len(base)
 			}
-			outs := RunLines(s, f, fi+lo, lines[lo:hi])
-			for j := 0; j+1 < len(outs); j += 2 {
-				p := pairs[(lo+j)/2]
-				oa, ob := outs[j], outs[j+1]
-				if oa.Timeout || ob.Timeout {
-					c.Inconclusive("watchdog fired")
-					continue
-				}
-				nch := 0
-				jt.Align(p.a.Tree, p.b.Tree, false, func(o jt.Obs) {
-					if o.In.T != nil && o.In.T.Role == jt.Sens && o.Mismatch == "" && (o.In.S != o.Out.S || o.In.B != o.Out.B) {
-						nch++
-						ls := o.In.T.Class
-						classMu.Lock()
-						classSeen[ls]++
-						classMu.Unlock()
+			var pairs []pair
+			var lines [][]byte
+			for i := blo; i < bhi; i++ {
+				it := base[i]
+				for r := 0; r < k; r++ {
+					mode := modes[(i+r)%len(modes)]
+					t2 := gg.Reassign(it.Tree, gen.ReassignOpts{Mode: mode, Numbers: f.N, Bools: f.B, Remote: f.I, LongLen: 20000})
+					st := []jt.Style{jt.Plain, jt.GoLike, jt.Unicode}[(i+r)%3]
+					b := Item{Case: it.Case, Tree: t2, Raw: t2.Bytes(st)}
+					if len(b.Raw) > 60000 {
+						continue
 					}
-				})
-				key := ""
-				if nch > 0 {
-					key = string(p.b.Raw) + f.String()
+					pairs = append(pairs, pair{it, b, mode})
+					lines = append(lines, it.Raw, b.Raw)
 				}
-				c.Eval(key)
-				c.Count("line_pairs_compared", 1)
-				c.Count("leaves_reassigned", nch)
-				if oa.Out == nil || ob.Out == nil || oa.Crash != "" || ob.Crash != "" {
-					if (oa.Out == nil) != (ob.Out == nil) || (oa.Crash == "") != (ob.Crash == "") {
+			}
+			if len(lines) == 0 {
+				continue
+			}
+			{
+				lo, hi := 0, len(lines)
+				first := lineNo == 0
+				lineNo += len(lines)
+				outs := RunLines(s, f, fi+blo, lines[lo:hi])
+				for j := 0; j+1 < len(outs); j += 2 {
+					p := pairs[(lo+j)/2]
+					oa, ob := outs[j], outs[j+1]
+					if oa.Timeout || ob.Timeout {
+						c.Inconclusive("watchdog fired")
+						continue
+					}
+					nch := 0
+					jt.Align(p.a.Tree, p.b.Tree, false, func(o jt.Obs) {
+						if o.In.T != nil && o.In.T.Role == jt.Sens && o.Mismatch == "" && (o.In.S != o.Out.S || o.In.B != o.Out.B) {
+							nch++
+							ls := o.In.T.Class
+							classMu.Lock()
+							classSeen[ls]++
+							classMu.Unlock()
+						}
+					})
+					key := ""
+					if nch > 0 {
+						key = string(p.b.Raw) + f.String()
+					}
+					c.Eval(key)
+					c.Count("line_pairs_compared", 1)
+					c.Count("leaves_reassigned", nch)
+					if oa.Out == nil || ob.Out == nil || oa.Crash != "" || ob.Crash != "" {
+						if (oa.Out == nil) != (ob.Out == nil) || (oa.Crash == "") != (ob.Crash == "") {
+							sn := Seen{Item: p.b, Flags: f, Res: ob}
+							c.Violation("outcome-differs|"+p.a.Label(), fmt.Sprintf("one member of a pair produced output and the other did not (flags %s)", f), replayOf(sn, map[string]any{"input_a": string(p.a.Raw), "output_a": string(oa.Out)}))
+						} else {
+							c.Count("pairs_without_output", 1)
+						}
+						continue
+					}
+					if !bytes.Equal(oa.Out, ob.Out) {
+						// name the leaf
+						where, sig := "?", "?"
+						ta, ea := jt.ParseObject(oa.Out)
+						tb, eb := jt.ParseObject(ob.Out)
+						if ea == nil && eb == nil {
+							done := false
+							jt.Align(ta, tb, false, func(o jt.Obs) {
+								if done {
+									return
+								}
+								if o.Mismatch != "" || (o.In.K <= jt.Str && (o.In.S != o.Out.S || o.In.B != o.Out.B)) {
+									where, sig, done = jt.PathStr(o.Path), opSig(o.Path), true
+								}
+							})
+						}
 						sn := Seen{Item: p.b, Flags: f, Res: ob}
-						c.Violation("outcome-differs|"+p.a.Label(), fmt.Sprintf("one member of a pair produced output and the other did not (flags %s)", f), replayOf(sn, map[string]any{"input_a": string(p.a.Raw), "output_a": string(oa.Out)}))
-					} else {
-						c.Count("pairs_without_output", 1)
+						c.Violation("value-dependent-output|"+sig, fmt.Sprintf("outputs of two lines that differ only in sensitive values differ at %s (reassignment mode %d, flags %s)", where, p.mode, f),
+							replayOf(sn, map[string]any{"input_a": string(p.a.Raw), "output_a": string(oa.Out), "differs_at": where}))
 					}
-					continue
-				}
-				if !bytes.Equal(oa.Out, ob.Out) {
-					// name the leaf
-					where, sig := "?", "?"
-					ta, ea := jt.ParseObject(oa.Out)
-					tb, eb := jt.ParseObject(ob.Out)
-					if ea == nil && eb == nil {
-						done := false
-						jt.Align(ta, tb, false, func(o jt.Obs) {
-							if done {
-								return
-							}
-							if o.Mismatch != "" || (o.In.K <= jt.Str && (o.In.S != o.Out.S || o.In.B != o.Out.B)) {
-								where, sig, done = jt.PathStr(o.Path), opSig(o.Path), true
-							}
-						})
+					if fi == 0 && first && j < 4 {
+						c.Sample(map[string]any{"flags": f.String(), "input_a": short(p.a.Raw, 400), "input_b": short(p.b.Raw, 400), "output_both": short(oa.Out, 400)})
 					}
-					sn := Seen{Item: p.b, Flags: f, Res: ob}
-					c.Violation("value-dependent-output|"+sig, fmt.Sprintf("outputs of two lines that differ only in sensitive values differ at %s (reassignment mode %d, flags %s)", where, p.mode, f),
-						replayOf(sn, map[string]any{"input_a": string(p.a.Raw), "output_a": string(oa.Out), "differs_at": where}))
-				}
-				if fi == 0 && lo == 0 && j < 4 {
-					c.Sample(map[string]any{"flags": f.String(), "input_a": short(p.a.Raw, 400), "input_b": short(p.b.Raw, 400), "output_both": short(oa.Out, 400)})
 				}
 			}
 		}
